@@ -937,6 +937,68 @@ Example C14_ex_plain_node_check :
   plain_node_check exST 1 (an []) 0 [TO_exec 1 false (exArgs true) [exX (Q_execute fne) rowsB cB] (obs cA)] = [].
 Proof. vm_compute. repeat split; reflexivity. Qed.
 
+(* ---------------------------------------------------------------------------------------- *)
+(* Deepening round 3: the bookkeeping the driver uses to tag F17 / F25 rests on theorems.       *)
+(* [stale_check] (uniform clusters) and [plain_node_check] (mixed clusters: per node without   *)
+(* the extension) run over the recorded history.  For a history accepted by [g_accept]:        *)
+(* ---------------------------------------------------------------------------------------- *)
+
+(* a hit that [stale_check] tags "in class" is an execute without the extension, with cached metadata
+   requested, and some call of the accepted run received a re-preparation PREPARED (statement's id)
+   that announced columns, other ones than the rows were decoded with: [KnownClass] (F17) holds of that
+   call in the final state of the run *)
+Theorem C14_stale_check_tag_sound : forall ST ns init tr c' st' cp an0 i,
+  g_accept ST (ginit init) O tr = (c', V_ok st') ->
+  (forall s, an_reprep an0 s = false) ->
+  In (i, Some true) (stale_check ST ns cp an0 O tr) ->
+  exists nd a xs cols pg rows t,
+    nth_error tr i = Some (TO_exec nd false a xs (OB_rows cols pg rows t)) /\
+    KnownClass ST st' i cols.
+Proof. exact stale_check_tag_sound. Qed.
+
+(* every hit of [plain_node_check] is in the class of its shape: flag true = the node's latest
+   announcement was a re-preparation recorded in the history => [KnownClass] (F17); flag false = it was
+   the node's answer at preparation => [KnownClassPrep] (F25) for every list of preparation answers
+   that contains this node's *)
+Theorem C14_plain_node_check_sound : forall ST ns init tr c' st' prep i fr,
+  g_accept ST (ginit init) O tr = (c', V_ok st') ->
+  In (i, fr) (plain_node_check ST ns (fun nd s => (prep nd s, false)) O tr) ->
+  exists nd a xs cols pg rows t,
+    nth_error tr i = Some (TO_exec nd false a xs (OB_rows cols pg rows t)) /\
+    if fr then KnownClass ST st' i cols
+    else forall pa, In (prep nd (xa_stmt a)) pa -> KnownClassPrep pa false (xa_use_cached a) cols.
+Proof. exact plain_node_check_sound. Qed.
+
+(* [plain_node_check] IS its positional specification, both directions (any history, accepted or not):
+   (i, fr) is reported iff operation i is an execute on a node without the extension whose last
+   answer came without metadata as requested and was decoded with other columns than the non-empty
+   ones that node most recently announced ([pn_fold]: its answer at preparation, then its
+   re-preparations, over everything recorded up to and including operation i), fr telling which.
+   So a history with no hit satisfies sentence 3 per node without the extension, and every hit is a
+   genuine decode-with-other-than-announced-columns event. *)
+Theorem C14_plain_node_check_spec : forall ST ns tr an i0 i fr,
+  In (i, fr) (plain_node_check ST ns an i0 tr) <-> exists k, i = (i0 + k)%nat /\ pn_hit ST ns an tr k fr.
+Proof. exact plain_node_check_spec. Qed.
+
+(* hypotheses of the two soundness theorems: an accepted history with a tagged hit *)
+Example C14_ex_tag_sound_hyps :
+  let a := exArgs true in
+  let fne := mk_exec_frame (exST 0) false a (exInit false 0) in
+  let u := RUnprepared (s_id (exST 0)) in
+  let pB := RPrepared (s_id (exST 0)) (meta_of_cols None cB) in
+  let rowsB := RRows (mkRows (RM_none 3) None 1 (p_cells payB)) in
+  let out := OB_rows cA None (Some [[Some [0;0;0;2]; Some [104]]]) true in
+  let tr := [TO_exec 0 false a [exX (Q_execute fne) u []; exX (Q_prepare (s_text (exST 0))) pB []; exX (Q_execute fne) rowsB cB] out] in
+  let an0 := mkAnn (fun _ => cA) (fun _ => None) (fun _ => false) in
+  match g_accept exST (ginit (exInit false)) 0 tr with (_, V_ok _) => true | _ => false end = true /\
+  stale_check exST 1 true an0 0 tr = [(0%nat, Some true)] /\
+  plain_node_check exST 1 (fun _ _ => (cA, false)) 0 tr = [(0%nat, true)] /\
+  plain_node_check exST 1 (fun _ _ => (cB, false)) 0
+    [TO_exec 0 false a [exX (Q_execute fne) rowsB cB] out] = [(0%nat, false)] /\
+  match g_accept exST (ginit (exInit false)) 0 [TO_exec 0 false a [exX (Q_execute fne) rowsB cB] out] with
+  | (_, V_ok _) => true | _ => false end = true.
+Proof. vm_compute. repeat split; reflexivity. Qed.
+
 Print Assumptions C14_transparent.
 Print Assumptions C14_direct.
 Print Assumptions C14_id_changed.
@@ -969,3 +1031,6 @@ Print Assumptions C14_batch_loop_unbounded.
 Print Assumptions C14_session_prep_accept_sound.
 Print Assumptions C14_cell_follows_reprepare.
 Print Assumptions C14_known_class_prepb_sound.
+Print Assumptions C14_stale_check_tag_sound.
+Print Assumptions C14_plain_node_check_sound.
+Print Assumptions C14_plain_node_check_spec.
